@@ -39,7 +39,7 @@ def _vals(rng, shape, digits):
 def _energy(ctx, tmp):
     from cij.io.traditional.qha_input import read_energy, write_energy
     from cij.io.traditional.models import QHAInputData, VolumeData, QPointData, QPointWeight
-    for i in range(ctx.pick(120, 6000)):
+    for i in range(ctx.pick(120, 60000)):
         case_id = f"energy{i}"
         if not ctx.mine(i, case_id):
             continue
@@ -108,7 +108,7 @@ def _energy(ctx, tmp):
               [(w.coord, w.weight) for w in back.weights])
         judge("writer", own["counts"], own["volumes"], own["weights"])        # the file itself, read by the oracle's parser
     # files written by the oracle's writer (other layouts) through the real reader
-    for i in range(ctx.pick(60, 3000)):
+    for i in range(ctx.pick(60, 30000)):
         case_id = f"energy-own{i}"
         if not ctx.mine(10 ** 5 + i, case_id):
             continue
@@ -157,7 +157,7 @@ SPELL = [lambda a, b: f"c{a}{b}", lambda a, b: f"C{a}{b}", lambda a, b: f"c_{a}{
 
 def _elast(ctx, tmp):
     from cij.io.traditional.elast_dat import read_elast_data
-    for i in range(ctx.pick(150, 8000)):
+    for i in range(ctx.pick(150, 80000)):
         case_id = f"elast{i}"
         if not ctx.mine(2 * 10 ** 5 + i, case_id):
             continue
@@ -232,7 +232,7 @@ def _fill_cli(ctx, tmp):
     from click.testing import CliRunner
     import cij.cli.fill
     from cij.io.traditional.elast_dat import read_elast_data
-    n = ctx.pick(45, 1800)
+    n = ctx.pick(45, 9000)
     for i in range(n):
         system = laue.SYSTEMS[i % 9]
         case_id = f"fillcli-{system}-{i}"
